@@ -126,6 +126,8 @@ def cases(seed, tier):
         "re_case": re_case,
         "delay_datums": [rng.randrange(0, 6) for _ in range(8)] if rng.random() < 0.5 else [],
         "page_events": rng.random() < 0.3,
+        # events written by older tools do not carry the optional 'filled' key at all
+        "strip_filled": rng.random() < 0.2,
         "page_datums": rng.random() < 0.3,
         "backup": {
             "primary_fails_at": rng.choice([None, 0, 1, rng.randrange(0, n_guess), rng.randrange(0, n_guess)]),
@@ -199,7 +201,11 @@ def reorder(docs, case):
                 out.extend(x for _, x in ready)
         out.extend(x for _, x in held)
         docs = out
-    if case.get("page_events"):
+    if case.get("strip_filled"):
+        for n, d in docs:
+            if n == "event":
+                d.pop("filled", None)
+    if case.get("page_events") and not case.get("strip_filled"):
         out = []
         for n, d in docs:
             if n == "event":
